@@ -251,6 +251,20 @@ def run_native(sub, pid, tier, seed, threads, timeout, extra=None):
     return {"sub": sub, "proc": p, "wd": wd, "t0": t0, "timeout": timeout, "pid": pid, "seed": seed}
 
 
+def live_failures(wd, pid, sub, seed):
+    """Failures a worker recorded before it hung or died (written at once by the worker)."""
+    out = []
+    for name in sorted(os.listdir(wd)):
+        if name.startswith("live-fail-") and name.endswith(".json"):
+            try:
+                f = json.load(open(os.path.join(wd, name)))
+            except Exception:
+                continue
+            path = save_replay(pid, sub, seed, f["case"], f["sig"], f["verdict"], f.get("origin", ""))
+            out.append({"sig": f["sig"], "verdict": f["verdict"], "replay": path})
+    return out
+
+
 def finish_native(h):
     p, wd, sub, pid, seed = h["proc"], h["wd"], h["sub"], h["pid"], h["seed"]
     try:
@@ -258,7 +272,9 @@ def finish_native(h):
     except subprocess.TimeoutExpired:
         p.kill()
         p.communicate()
-        return {"sub": sub, "status": "timeout", "stats": None, "violations": [], "note": "watchdog after %ds" % h["timeout"]}
+        res = {"sub": sub, "status": "timeout", "stats": None, "violations": [], "note": "watchdog after %ds" % h["timeout"]}
+        res["violations"] = live_failures(wd, pid, sub, seed)
+        return res
     wall = time.time() - h["t0"]
     stats_path = os.path.join(wd, "stats.json")
     res = {"sub": sub, "status": "ok", "stats": None, "violations": [], "wall_s": wall, "note": ""}
@@ -295,6 +311,7 @@ def finish_native(h):
         seen.add(key)
         path = save_replay(pid, sub, seed, case, sig, verdict, "crash-journal")
         res["violations"].append({"sig": sig, "verdict": verdict, "replay": path})
+    res["violations"] += live_failures(wd, pid, sub, seed)
     if not res["violations"]:
         res["status"] = "error"
         res["note"] += " ; no journalled case reproduces the crash"
@@ -411,7 +428,7 @@ def main(argv, verif):
         return 2
     build_s = time.time() - t0
     threads = max(2, NCPU // 2)
-    timeout = 900 if tier == "quick" else 7200
+    timeout = 480 if tier == "quick" else 7200
     handles = [run_native(sub, pid, tier, seed, threads, timeout) for sub in ("dbg", "rel")]
     results = [finish_native(h) for h in handles]
 
